@@ -348,3 +348,17 @@ def roundtrip_any(case, rr, doc_regex=None):
     if doc is None or not (obs.get("regen") is not None or obs.get("regen_exception")):
         return False
     return bool(re.search(doc_regex, doc, re.S))
+
+
+@matcher
+def c07_plugin_error(case, rr, rule=None, doc_regex=None):
+    import re
+
+    obs = rr.get("observed") or {}
+    v = obs.get("violations") or []
+    if not v or any(x["kind"] != "plugin-error" for x in v):
+        return False
+    errs = " ".join(e for x in v for e in (x.get("detail") or {}).get("err", []))
+    if rule and f"Plugin id '{rule}'" not in errs:
+        return False
+    return not doc_regex or bool(re.search(doc_regex, obs.get("doc") or "", re.S))
